@@ -5,6 +5,14 @@ HERE = os.path.dirname(os.path.dirname(os.path.abspath(__file__)))
 
 # id -> (technique, level text, level note, design section)
 CHECKS = {
+ "C06": ("lockstep of strict and non-strict load on the exhaustively enumerated valid / single-fault (thorough: double-fault) document space; detection token located by the reference interpreter",
+         "For every document of the C04 space (valid x 6 versions, every single deviation), every located single fault rendered one token per line, every token deletion / duplication / swap / truncation of every carrier (thorough: all pairs of deviations): both modes are run and the relations R1 strict Ok => lax Ok, R2 lax clean => strict Ok with equal model, R3 (no IF_DATA) strict Err <=> lax Err or a non-deprecation diagnostic, R4 equal models, R5 the diagnostic names the file (string: empty, load(file): the path) and the line of the token at which the reference interpreter rejects the document.",
+         "R5 is evaluated for single deviations with a well-defined detection token and not for documents with A2ML/IF_DATA or blind token mutations; after a recoverable problem followed by a hard error the non-strict log is unobservable (API returns only the error)",
+         "DESIGN.md 5/C06"),
+ "C07": ("exhaustive enumeration of unknown-element injections (every block with a tagged region x every child position x 12 payload shapes; thorough: two payloads, pairs of children) with a differential oracle against the document without the payload",
+         "Every block kind of the grammar that admits optional sub-elements, as carrier and with each optional child, with an unknown element inserted before the first, between and after the last child, for 12 payload shapes (keyword / block, scalar arguments, nested and same-tag nested blocks, comments, a string containing an end tag): non-strict load gives exactly one UnknownSubBlock warning naming the tag and a model equal to the model of the document without the payload; strict load fails with UnknownSubBlock naming the tag.",
+         "scope restrictions of the statement (payload tags never collide with the enclosing block's tags; no bare keyword directly behind an open-ended list)",
+         "DESIGN.md 5/C07"),
  "C03": ("exhaustive enumeration of small inputs per family (byte strings, lexical-unit sequences, document prefixes and token mutations, A2ML unit sequences, nesting ladder) x configurations, each executed on the real loader under catch_unwind, overflow checks and a hang watchdog",
          "All byte strings of length <= 2 and all strings of length <= 4 (thorough 5) over a 14-byte alphabet through load(file); all sequences of <= 3 (4) lexical units, spaced and unspaced, bare / inside MODULE / inside IF_DATA with A2ML, crossed with strict, a2ml_spec none/valid/invalid and entry point load_from_string / load_fragment; one more unit for a single configuration; every byte prefix and every single-token deletion, duplication and swap of every carrier and rich document; all A2ML unit sequences of <= 3/4 (4/5) units as in-file A2ML and as built-in specification; nesting ladder 1..64. The harness is built with overflow checks and debug assertions so that arithmetic overflow is a panic.",
          "inputs longer than the bounds, stack exhaustion by nesting deeper than 64 and memory exhaustion by size are outside the explored space; a hang is reported by a 20 s watchdog",
